@@ -119,12 +119,97 @@ pub fn is_wrap(re: &Regex) -> bool {
     matches!(re.inner, crate::RegexImpl::Wrap { .. })
 }
 
-/// The compiled program listing (one instruction per line), if the pattern uses the VM.
-pub fn listing(re: &Regex) -> Option<Vec<String>> {
+fn hex(s: &str) -> String {
+    if s.is_empty() {
+        return String::from("-");
+    }
+    s.bytes().map(|b| alloc::format!("{:02x}", b)).collect()
+}
+
+fn num(n: usize) -> String {
+    if n == usize::MAX {
+        String::from("inf")
+    } else {
+        alloc::format!("{}", n)
+    }
+}
+
+fn assertion_name(a: &crate::Assertion) -> &'static str {
+    use crate::Assertion::*;
+    match a {
+        StartText => "st",
+        EndText => "et",
+        StartLine { crlf: false } => "sl0",
+        StartLine { crlf: true } => "sl1",
+        EndLine { crlf: false } => "el0",
+        EndLine { crlf: true } => "el1",
+        LeftWordBoundary => "lw",
+        RightWordBoundary => "rw",
+        WordBoundary => "wb",
+        NotWordBoundary => "nwb",
+    }
+}
+
+fn insn_token(i: &crate::vm::Insn) -> String {
+    use crate::vm::Insn::*;
+    match i {
+        End => "end".into(),
+        Any => "any".into(),
+        AnyNoNL => "anynonl".into(),
+        Assertion(a) => alloc::format!("as:{}", assertion_name(a)),
+        Lit(s) => alloc::format!("lit:{}", hex(s)),
+        Split(x, y) => alloc::format!("split:{}:{}", x, y),
+        Jmp(t) => alloc::format!("jmp:{}", t),
+        Save(s) => alloc::format!("save:{}", s),
+        Save0(s) => alloc::format!("save0:{}", s),
+        Restore(s) => alloc::format!("restore:{}", s),
+        RepeatGr {
+            lo,
+            hi,
+            next,
+            repeat,
+        } => alloc::format!("rgr:{}:{}:{}:{}", lo, num(*hi), next, repeat),
+        RepeatNg {
+            lo,
+            hi,
+            next,
+            repeat,
+        } => alloc::format!("rng:{}:{}:{}:{}", lo, num(*hi), next, repeat),
+        RepeatEpsilonGr {
+            lo,
+            next,
+            repeat,
+            check,
+        } => alloc::format!("regr:{}:{}:{}:{}", lo, next, repeat, check),
+        RepeatEpsilonNg {
+            lo,
+            next,
+            repeat,
+            check,
+        } => alloc::format!("reng:{}:{}:{}:{}", lo, next, repeat, check),
+        FailNegativeLookAround => "failneg".into(),
+        GoBack(n) => alloc::format!("goback:{}", n),
+        Backref(s) => alloc::format!("backref:{}", s),
+        BeginAtomic => "begin".into(),
+        EndAtomic => "endatomic".into(),
+        Delegate {
+            pattern,
+            start_group,
+            end_group,
+            ..
+        } => alloc::format!("del:{}:{}:{}", hex(pattern), start_group, end_group),
+        ContinueFromPreviousMatchEnd => "contprev".into(),
+        BackrefExistsCondition(g) => alloc::format!("bex:{}", g),
+    }
+}
+
+/// The compiled program (slot count and one token per instruction), if the pattern uses the VM.
+pub fn listing(re: &Regex) -> Option<(usize, Vec<String>)> {
     match &re.inner {
         crate::RegexImpl::Wrap { .. } => None,
-        crate::RegexImpl::Fancy { prog, .. } => {
-            Some(prog.body.iter().map(|i| alloc::format!("{:?}", i)).collect())
-        }
+        crate::RegexImpl::Fancy { prog, .. } => Some((
+            prog.n_saves(),
+            prog.body.iter().map(insn_token).collect(),
+        )),
     }
 }
